@@ -260,3 +260,34 @@ Proof.
 Qed.
 
 Lemma link_char s i : M_SmtString_char s i = smt_char (SmtString_s s) i.     Proof. reflexivity. Qed.
+
+(* ---- is_unicode / to_unicode_string (char::from_u32 accepts exactly the Rust chars) ---- *)
+Lemma char_from_u32_spec x : char_from_u32 x = if is_rust_char x then Some x else None.
+Proof.
+  unfold char_from_u32, is_rust_char.
+  destruct (x <? 55296) eqn:E1; destruct (57343 <? x) eqn:E2; destruct (x <=? 1114111) eqn:E3; cbn [andb orb]; try reflexivity; exfalso; lia.
+Qed.
+Lemma link_all_unicode v : M_fn_all_unicode v = Some (all_unicode v).
+Proof.
+  unfold M_fn_all_unicode, fn_all_unicode, all_unicode. f_equal.
+  induction v as [|x v IH]; [reflexivity|]. cbn [forallb]. rewrite IH, char_from_u32_spec.
+  destruct (is_rust_char x); reflexivity.
+Qed.
+Lemma link_map_to_unicode v : M_fn_map_to_unicode v = Some (map_to_unicode v).
+Proof.
+  unfold M_fn_map_to_unicode, fn_map_to_unicode, map_to_unicode. f_equal.
+  induction v as [|x v IH]; [reflexivity|]. cbn [map]. rewrite IH, char_from_u32_spec.
+  destruct (is_rust_char x); reflexivity.
+Qed.
+Lemma link_is_unicode s : M_SmtString_is_unicode s = Some (smt_is_unicode (SmtString_s s)).
+Proof.
+  assert (E : M_SmtString_is_unicode s = M_fn_all_unicode (SmtString_s s)).
+  { unfold M_SmtString_is_unicode, SmtString_is_unicode. cbv [bind]. destruct (M_fn_all_unicode (SmtString_s s)); reflexivity. }
+  rewrite E. apply link_all_unicode.
+Qed.
+Lemma link_to_unicode_string s : M_SmtString_to_unicode_string s = Some (smt_to_unicode_string (SmtString_s s)).
+Proof.
+  assert (E : M_SmtString_to_unicode_string s = M_fn_map_to_unicode (SmtString_s s)).
+  { unfold M_SmtString_to_unicode_string, SmtString_to_unicode_string. cbv [bind]. destruct (M_fn_map_to_unicode (SmtString_s s)); reflexivity. }
+  rewrite E. apply link_map_to_unicode.
+Qed.
